@@ -356,3 +356,32 @@ Example ex_separate_pre :
                       host_cfg := ex_cfg2; shared := false |} 0 [Conn 1 0 [0]; Conn 1 0 [0]; Conn 2 0 [0; 0; 0]]
   = ([Served [Normal] false; Served [] true; Served [Normal; Normal; TooMany] false], Running).
 Proof. vm_compute. reflexivity. Qed.
+
+(** ---- the server over arbitrary event lists ------------------------------------------------- *)
+
+(** For EVERY event list — connections, failed calls of accept(), QUIC time-outs, shutdown requests,
+    calls made by other tasks on the shared limiters — what each connection receives and how the
+    loop ends are those of the reference server for event lists: connections are answered from the
+    reference counter(s) alone until a shutdown request or the 101st consecutive accept error,
+    everybody is refused afterwards. *)
+Theorem server_events_refine_reference : forall (checked : bool) (sc : sconfig) (t0 : N) (evs : list conn_event),
+  fits (ev_calls_bound evs) -> accept_loop checked sc t0 evs = spec_server_events sc t0 evs.
+Proof. exact server_events_model. Qed.
+
+(** The reference server for event lists ends as [loop_spec] says, and on connection lists it is [spec_server]. *)
+Theorem reference_server_events_meaning : forall (sc : sconfig) (t0 : N),
+  (forall evs, snd (spec_server_events sc t0 evs) = loop_spec 0 evs) /\
+  (forall cs, spec_server_events sc t0 (map conn_of cs) = (spec_server sc t0 cs, Running)).
+Proof. intros sc t0. split; [intros evs; apply spec_events_status|intros cs; apply spec_events_conns]. Qed.
+
+(** 100 failed calls of accept(), a dropped connection of the flooder, 100 more, and the bystander is
+    served; the 101st failure in a row ends the loop and everybody after it is refused. *)
+Example ex_events :
+  let sc := same_limiter ex_cfg2 in
+  fits (ev_calls_bound ([Conn 1 0 [0; 0; 0; 0; 0; 0; 0]] ++ repeat AcceptErr 100 ++ [Conn 1 0 [0]] ++ repeat AcceptErr 100 ++ [Conn 2 0 [0]])) /\
+  spec_server_events sc 0 ([Conn 1 0 [0; 0; 0; 0; 0; 0; 0]] ++ repeat AcceptErr 100 ++ [Conn 1 0 [0]] ++ repeat AcceptErr 100 ++ [Conn 2 0 [0]])
+  = ([Served [Normal; TooMany; TooMany; TooMany; TooMany] true; Served [] true; Served [Normal] false], Running) /\
+  spec_server_events sc 0 ([Conn 1 0 [0]] ++ repeat AcceptErr 101 ++ [Conn 2 0 [0]; Conn 1 0 [0]])
+  = ([Served [Normal] false; Refused; Refused], ReturnedErr) /\
+  spec_server_events sc 0 [Conn 1 0 [0]; Shutdown; Conn 2 0 [0]] = ([Served [Normal] false; Refused], ReturnedOk).
+Proof. vm_compute. repeat split; discriminate. Qed.
